@@ -124,9 +124,15 @@ def make_db(it):
 
 
 def run_formula(it):
-    f = build(it['tree'], it['betas'])
     entry = it['entry']
     nd = it.get('ndraws', 6)
+    if entry == 'biogeme_multi':
+        # a specification with several formulas: {'log_like': ..., 's1': ..., 'weight': ...} in the given order
+        from biogeme.biogeme import BIOGEME
+        formulas = {name: build(t, it['betas']) for name, t in it['trees']}
+        b = BIOGEME(make_db(it), formulas, number_of_draws=nd)
+        return {'status': 'accepted', 'value': 'constructed', 'after': after_ctor(b)}
+    f = build(it['tree'], it['betas'])
     if entry == 'methods':
         db = make_db(it)
         out = {'status': 'accepted'}
@@ -260,6 +266,76 @@ def run_data(it):
     raise ValueError(entry)
 
 
+def run_history(it):
+    """a database with a HISTORY: operations (a first BIOGEME object, panel(), remove(), add_column(), scale_column()),
+    then a fault enters the current table, then a second BIOGEME(...) / get_value_c is asked to work on it"""
+    from biogeme.biogeme import BIOGEME
+    from biogeme.expressions import Beta, Variable, PanelLikelihoodTrajectory, Numeric
+    n = it.get('nrows', 5)
+    df = pd.DataFrame({'x0': [0.5 * (i + 1) for i in range(n)], 'x1': [i % 3 for i in range(n)],
+                       'id': [1 + i // 2 for i in range(n)]})
+    db = Database('c12h', df)
+    b = Beta('b', 0.5, None, None, 0)
+
+    def formula(col):
+        f = b * Variable(col)
+        return PanelLikelihoodTrajectory(f) if db.is_panel() else f
+    for step in it['steps']:
+        if step == 'first_biogeme':
+            BIOGEME(db, formula('x0'))
+        elif step == 'first_biogeme_dict':
+            BIOGEME(db, {'log_like': formula('x0')})
+        elif step == 'panel':
+            db.panel('id')
+        elif step == 'remove_some':
+            db.remove(Variable('x1') == Numeric(2))
+        elif step == 'add_column':
+            db.add_column(Variable('x0') * Numeric(2), 'xnew')
+        elif step == 'scale':
+            db.scale_column('x0', 2.0)
+        elif step == 'first_gvc':
+            formula('x0').get_value_c(database=db, prepare_ids=True)
+        else:
+            raise ValueError(step)
+    inj = it.get('inject')
+    col = 'x0'
+    m = len(db.data.index)
+    r = it.get('row', 0) % max(m, 1)
+    if inj == 'nan-cell':
+        db.data.loc[db.data.index[r], 'x0'] = float('nan')
+    elif inj == 'nan-column':
+        num = db.data['x0'] * 1.0
+        den = db.data['x0'] * 1.0
+        num.iloc[r] = 0.0
+        den.iloc[r] = 0.0
+        db.data['ratio'] = num / den           # one 0/0
+        col = 'ratio'
+    elif inj == 'str-column':
+        db.data['sbad'] = ['a'] * m
+    elif inj == 'object-cell':
+        db.data['sbad'] = [1.0] * m
+        db.data['sbad'] = db.data['sbad'].astype(object)
+        db.data.loc[db.data.index[r], 'sbad'] = 'oops'
+    elif inj == 'empty':
+        db.remove(Variable('x0') == Variable('x0'))
+    elif inj == 'good-column':
+        db.data['ratio'] = db.data['x0'] / 2.0
+        col = 'ratio'
+    elif inj is not None:
+        raise ValueError(inj)
+    entry = it['entry']
+    if entry == 'biogeme':
+        bb = BIOGEME(db, formula(col))
+        return {'status': 'accepted', 'value': 'constructed', 'after': after_ctor(bb)}
+    if entry == 'biogeme_dict':
+        bb = BIOGEME(db, {'log_like': formula(col)})
+        return {'status': 'accepted', 'value': 'constructed', 'after': after_ctor(bb)}
+    if entry == 'gvc':
+        v = formula(col).get_value_c(database=db, prepare_ids=True)
+        return {'status': 'accepted', 'value': summary(v)}
+    raise ValueError(entry)
+
+
 def run_nests(it):
     from biogeme import models
     from biogeme.expressions import Beta, Variable, Numeric
@@ -321,6 +397,8 @@ def main():
                 r = run_data(it)
             elif it['mode'] == 'nests':
                 r = run_nests(it)
+            elif it['mode'] == 'history':
+                r = run_history(it)
             else:
                 r = {'status': 'harness', 'msg': f'unknown mode {it["mode"]}'}
         except Exception as e:  # noqa
